@@ -15,7 +15,8 @@ RULE = ('every case quantizes one generated model with one recipe twice through 
         'once with the guarded threshold hook lowered (0..64 bytes) so that the large-model path serialises it.  Models: random DAGs, '
         'templates with shared buffers, and directed fully-connected stacks whose quantized weights are 1, 15, 16, 17, 31, 33 bytes '
         'or zero-length.  Raw flatbuffer accessors observe offset/size; object trees with buffers blanked are re-serialised and '
-        'compared; both byte strings are loaded and invoked.  distinct by (graph structure, recipe, threshold); non-trivial iff the '
+        'compared; both byte strings are loaded and invoked.  In 30% of the cases the large form comes from a Quantizer object that already '
+        'quantized the model with another recipe on the large path (history).  distinct by (graph structure, recipe, threshold); non-trivial iff the '
         'large path was actually taken and >=1 buffer carries data')
 ASSUMPTIONS = ['"size aligned" is read as: every buffer starts on a 16-byte boundary and the padded extent does not overlap the next one',
                'the stored size is the exact data length (TFLite format)']
@@ -132,13 +133,33 @@ def run_case(ctx, case, rng):
   if small.phase == 'no_rule_accepted':
     return {'outcome': 'skipped', 'reason': 'no_rule_accepted'}
   before = LARGE_CALLS[0]
+  reuse = rng.random() < 0.3 and small.exc is None
   os.environ[THR] = str(thr)
   try:
-    large = common.pipeline(spec, datasets, rules=rules, cal=small.cal if small.need_cal else None)
+    if reuse:
+      # history: the SAME Quantizer object first quantizes with another recipe on the large path, then with this one
+      ctx.count('reused_quantizer_histories')
+      large = common.Run()
+      large.accepted = small.accepted
+      try:
+        other = [('.*', '*', str(rng.choice(['wo8a_cw', 'wo4a_cw', 'drq8_cw', 'fp16'])))]
+        qt = aeq.Quantizer(spec.content)
+        recipes.apply_rules(qt, other)
+        try:
+          qt.quantize(None)
+        except Exception:  # pylint: disable=broad-except
+          pass
+        qt.load_quantization_recipe(small.recipe)
+        before = LARGE_CALLS[0]   # only the quantize() under comparison counts
+        large.out = bytes(qt.quantize(small.cal if small.need_cal else None).quantized_model)
+      except Exception as e:  # pylint: disable=broad-except
+        large.exc = e
+    else:
+      large = common.pipeline(spec, datasets, rules=rules, cal=small.cal if small.need_cal else None)
   finally:
     os.environ.pop(THR, None)
   took_large = LARGE_CALLS[0] > before
-  base = {'rules': small.accepted, 'ops': common.describe_model(spec.content, src), 'threshold': thr}
+  base = {'rules': small.accepted, 'ops': common.describe_model(spec.content, src), 'threshold': thr, 'reused_quantizer': bool(reuse)}
   if (small.exc is None) != (large.exc is None):
     ctx.violation('one_path_raised', {'small_raised': small.exc is not None},
                   dict(base, small=str(small.exc)[:200], large=str(large.exc)[:200]))
